@@ -423,9 +423,14 @@ def check_macro_case(world, table, case, empty_dict=False):
     exp = G.expected_macro(case, table)
     got = G.run_macro_case(world, case, empty_dict=empty_dict)
     out = []
+    creator_failed = False
     for q, e in exp.items():
         if q not in got:
+            if creator_failed:
+                continue               # createMacrosFromMicros raised (or was refused): one verdict for the call, not one per field
+            creator_failed = True
             o, q0 = got.get("creator", "missing"), "creator"
+            e = "refused" if case["refused"] else "the macroscopic collection"
         else:
             o, q0 = got[q], q
         d = rp.diff(e, o, rtol=MACRO_RTOL)
